@@ -88,6 +88,9 @@ func c1Namespaces(c *Ctx, rule string) {
 				if fa, ok := x.Addr.(*ssa.FieldAddr); ok && fieldName(fa.X.Type(), fa.Field) == "openNamespaces" {
 					touches[f] = true
 				}
+				if isStructVal(x.Val) && isJSONEnc(x.Val.Type()) {
+					touches[f] = true // the whole encoder is overwritten (*clone = *enc), the counter with it
+				}
 			case *ssa.Call:
 				if alts, ok := constWrite(c, in); ok {
 					for _, a := range alts {
